@@ -71,6 +71,7 @@ class Builder:
                                      if os.path.exists(os.path.join(repo, "src", f))])
         self.harness_hdr_hash = tree_hash([HARNESS], (".h",))
         self.inc = "-I%s -I%s" % (os.path.join(repo, "include"), os.path.join(repo, "include_prv"))
+        self.repo_src_hash = tree_hash([os.path.join(repo, "src")], (".c", ".h"))
 
     def _compile(self, cmd, src, key_extra):
         key = sha(cmd, read(src), key_extra)
@@ -115,7 +116,11 @@ class Builder:
     def harness_job(self, relpath, defs=""):
         src = os.path.join(HARNESS, relpath)
         if relpath.endswith(".c"):
-            cmd = "%s %s %s %s %s %s -I%s" % (self.v["cc"], COMMON_C, self.v["cflags"], self.extra_defs, defs, self.inc, HARNESS)
+            cmd = "%s %s %s %s %s %s -I%s -I%s" % (self.v["cc"], COMMON_C, self.v["cflags"], self.extra_defs, defs, self.inc, HARNESS, os.path.join(self.repo, "src"))
+            return (cmd, src, self.repo_hdr_hash + self.harness_hdr_hash + self.repo_src_hash)
+        elif relpath in ("rc_main.cpp", "fuzz_main.cpp"):
+            cmd = "%s %s %s -I%s" % (self.v["cxx"], COMMON_CXX, self.v["cflags"], HARNESS)
+            return (cmd, src, self.harness_hdr_hash)
         else:
             cmd = "%s %s %s %s %s %s -I%s" % (self.v["cxx"], COMMON_CXX, self.v["cflags"], self.extra_defs, defs, self.inc, HARNESS)
         return (cmd, src, self.repo_hdr_hash + self.harness_hdr_hash + self.repo_inc_c_hash)
